@@ -68,6 +68,9 @@ type Case struct {
 	SyncHandoff bool `json:"sync_handoff"`
 	// NumGPUs > 1: the kernel runs on a unified device over all GPUs
 	NumGPUs int `json:"num_gpus"`
+	// Flush (Prog == nil): a two-GPU copy history with long cache flushes (see handoff_test.go)
+	// instead of a generated program
+	Flush *FlushCase `json:"flush,omitempty"`
 }
 
 var yieldPoints = []string{"drain-subscribed", "drain-signaled", "drain-before-wait", "drain-after-wait", "drain-return",
@@ -91,6 +94,25 @@ func genCase(t *rapid.T) Case {
 	c.Timing = rapid.IntRange(0, 3).Draw(t, "timing") > 0
 	if c.Timing {
 		c.GPUType = rapid.SampledFrom([]string{"r9nano", "r9nano", "mi300a"}).Draw(t, "gputype")
+	}
+	if rapid.IntRange(0, 6).Draw(t, "flush-history") == 0 {
+		// rounds of: a kernel dirties a large buffer on one GPU, the application reads back a small
+		// buffer whose two pages lie on both GPUs (so both caches are flushed for the copy)
+		c.Timing, c.GPUType, c.NumGPUs, c.SyncHandoff = true, "r9nano", 2, true
+		c.Flush = &FlushCase{
+			DirtyPages: rapid.SampledFrom([]int{96, 128}).Draw(t, "dirty-pages"),
+			DirtyGPU:   rapid.IntRange(1, 2).Draw(t, "dirty-gpu"),
+			SmallGPU:   rapid.IntRange(1, 2).Draw(t, "small-gpu"),
+			SmallOff:   0,
+			SmallBytes: 8192,
+			K:          rapid.Uint32().Draw(t, "k"),
+			Seed:       rapid.Uint32().Draw(t, "seed"),
+			Rounds:     rapid.IntRange(3, 5).Draw(t, "rounds"),
+			SmallDist:  true,
+		}
+		c.A = genSchedule(t, "a")
+		c.B = genSchedule(t, "b")
+		return c
 	}
 	c.NumGPUs = rapid.SampledFrom([]int{1, 1, 2, 4}).Draw(t, "gpus")
 	if c.Timing && c.NumGPUs > 2 {
@@ -317,8 +339,15 @@ func RunCase(c Case) (res stats.Result) {
 	} else {
 		res.Labels = append(res.Labels, "handoff-free-running")
 	}
-	a, incA := runOnce(c, c.A)
-	b, incB := runOnce(c, c.B)
+	run := runOnce
+	if c.Flush != nil {
+		res.Labels = append(res.Labels, "flush-history")
+		run = func(c Case, s Schedule) (Observables, bool) {
+			return runFlushHistory(c.Flush, c.GPUType, c.SyncHandoff, s)
+		}
+	}
+	a, incA := run(c, c.A)
+	b, incB := run(c, c.B)
 	if incA || incB {
 		res.Labels = append(res.Labels, "inconclusive-wall-clock-budget")
 		return
